@@ -49,6 +49,10 @@ func DecodeDecrypt(
 		}
 	}
 
+	if len(ikeMsg.Payloads) == 0 && ikeMsg.NextPayload != uint8(message.NoNext) && len(msg) <= message.IKE_HEADER_LEN {
+		return nil, errors.Errorf("DecodeDecrypt(): payload (type %d) announced by the header is missing", ikeMsg.NextPayload)
+	}
+
 	if len(ikeMsg.Payloads) > 0 && ikeMsg.Payloads[0].Type() == message.TypeSK {
 		if ikesaKey == nil {
 			return nil, errors.Errorf("IKE decode decrypt: need ikesaKey to decrypt")
